@@ -98,7 +98,18 @@ def case(g, tier, ci):
         ops.append({"op": "tl.repvary", "seq": "s", "to": "tv", "lens": [1, 1, 1, 1, 1], "poss": [1],
                     "vars": [{"chan": 1, "name": n0, "arg": 0, "vals": [enc(0.25), enc(0.5)]}]})
         objs.append(("sq", "tv"))
-    ops += [{**o, "_step": 0} for o in snap(objs)]
+    watch = list(objs)
+    if N % 3 == 0:
+        # a waituntil inserted under a user-chosen name: copy() / addBluePrint store it under the protected
+        # name the original already has (D8) -- watched, never mutated
+        ops += [{"op": "bp.new", "id": "bw"},
+                {"op": "bp.insert", "id": "bw", "pos": -1, "fn": "ramp", "args": [enc(0.5), enc(-0.5)], "dur": enc(3 / SR), "name": enc("up")},
+                {"op": "bp.insert", "id": "bw", "pos": -1, "fn": "waituntil", "args": [enc(6 / SR)], "dur": None, "name": enc("mywait")},
+                {"op": "bp.insert", "id": "bw", "pos": -1, "fn": "ramp", "args": [enc(0.25), enc(0)], "dur": enc((N - 6) / SR), "name": enc("down")},
+                {"op": "bp.setSR", "id": "bw", "SR": enc(SR)}, {"op": "bp.copy", "id": "bw", "to": "bwc"},
+                {"op": "el.new", "id": "ew"}, {"op": "el.addBP", "id": "ew", "ch": 1, "bp": "bw"}]
+        watch += [("bp", "bw"), ("bp", "bwc"), ("el", "ew")]
+    ops += [{**o, "_step": 0} for o in snap(watch)]
     # --- mutations
     step = 0
     for _ in range(r.randint(4, 9)):
@@ -161,7 +172,7 @@ def case(g, tier, ci):
         m["_mut"] = oid
         m["_step"] = step
         ops.append(m)
-        ops += [{**o, "_step": step} for o in snap(objs)]
+        ops += [{**o, "_step": step} for o in snap(watch)]
     return ops
 
 
